@@ -11,7 +11,7 @@ SPEC = {
     "quick_procs": 2, "thorough_procs": 16, "timeout_quick": 400, "timeout_thorough": 2400,
     "anchors": ["PyMatterSim.static.gr:conditional_gr", "PyMatterSim.static.sq:conditional_sq"],
     "must_reach": ["PyMatterSim.static.gr:conditional_gr", "PyMatterSim.static.sq:conditional_sq"],
-    "floors": {"sq_huge": 500, "reused_arrays": 60, "gA": 800, "gr_column": 800, "gA_norm": 20, "sq_pervector": 1000, "sq_average": 300,
+    "floors": {"sq_huge": 500, "reused_arrays": 60, "gA": 800, "gr_column": 800, "gA_norm": 20, "positions_updated_in_place": 60, "gA_norm_fields_with_small_relative_variance": 3, "gA_norm_small_amplitude_fields": 3, "sq_pervector": 1000, "sq_average": 300,
                "reduce_partial_gr": 15, "reduce_partial_sq": 20, "reduce_total": 50, "reduce_components": 80},
     "rule": ("single configurations x condition kinds {bool, float, complex128, real vector, complex vector, symmetric tensor, "
              "general tensor} x {2D,3D} x {orthogonal, triclinic (g only)} x masks x bin widths x integer wave-vector lists; "
@@ -41,6 +41,11 @@ def make_condition(rng, N, d, kind, types=None):
         c[:2] = True
         return c
     if kind == "float":
+        u = rng.random()
+        if u < 0.15:
+            return float(rng.choice([50.0, -300.0, 1e4])) + float(rng.choice([0.1, 1.0])) * rng.normal(size=N)     # a field on a large offset (a temperature, a potential energy): variance far below mean^2
+        if u < 0.3:
+            return float(10.0 ** rng.uniform(-7, -4)) * (rng.normal(size=N) + rng.uniform(-2, 2))                    # a small-amplitude field (displacements in SI units, a strain)
         return rng.normal(size=N) + rng.uniform(-2, 2)
     if kind == "int":            # integer-valued scalar stored as integers (charges, spins, coordination numbers)
         c = rng.integers(-3, 7, size=N).astype(rng.choice([np.int64, np.int32]))
@@ -154,7 +159,12 @@ def case_gr(ctx, rng):
         Af = A.astype(np.float64)
         m1, m2 = Af.mean() ** 2, (Af ** 2).mean()
         exp = (res["gA"].values - m1) / (m2 - m1)
-        ctx.close("gA_norm", res["gA_norm"].values, exp, key + "/gA_norm", rtol=1e-9, atol=1e-12, what="gA_norm", data=info, n=1)
+        cancel = max(1.0, m2 / max(m2 - m1, 1e-300))          # <A^2>/var: the subtraction loses this many units of round-off
+        if cancel > 1e3:
+            ctx.count("gA_norm_fields_with_small_relative_variance")
+        if float(np.abs(Af).max()) < 1e-3:
+            ctx.count("gA_norm_small_amplitude_fields")
+        ctx.close("gA_norm", res["gA_norm"].values, exp, key + "/gA_norm", rtol=1e-9 + 1e-14 * cancel, atol=1e-12 + 1e-14 * cancel, what="gA_norm", data=info, n=1)
     # ---- reductions on the real code
     if kind == "bool" and set(np.unique(types[A])) == {types[A][0]} and A.sum() == (types == types[A][0]).sum():
         a = int(types[A][0])
@@ -182,6 +192,34 @@ def case_gr(ctx, rng):
         if good:
             ctx.close("reduce_components", res["gA"].values, tot, key + "/sum_of_components", rtol=1e-9, atol=1e-10,
                       what="vector field vs sum over components", data=info, n=1)
+
+
+    updated_in_place_gr(ctx, rng, conditional_gr, s, cell, A, Acall, ctype, kind, ppp, w, nb, compare, Nn, key, info)
+
+
+def updated_in_place_gr(ctx, rng, conditional_gr, s, cell, A, Acall, ctype, kind, ppp, w, nb, compare, Nn, key, info):
+    """history: the particles of the SAME snapshot object are moved in place (a frame streamed into a reused buffer -- the only way to
+    update a frozen record) and the same request is made again: the answer belongs to the configuration the object holds now"""
+    if not s.positions.flags.writeable or rng.random() > 0.25:
+        return
+    N, d = s.positions.shape
+    newpos = cell["origin"] + rng.random((N, d)) @ cell["H"]
+    s.positions[...] = newpos
+    ok, res = ctx.call(key + "/positions_updated_in_place", conditional_gr, s, Acall, ctype, ppp, w, data=info)
+    if not ok:
+        return
+    _vec, dist, _ = geom.pair_table(newpos, cell["H"], ppp)
+    off = ~np.eye(N, dtype=bool)
+    V = abs(np.linalg.det(cell["H"]))
+    vs = rgr.shell(d, w, nb)
+    wlo, whi, _ = rgr.histogram_interval(dist[off], w, nb, weights=weights_matrix(A, kind)[off])
+    norm = V / (Nn * Nn) / vs
+    obs = res["gA"].values.astype(float) if "gA" in res.columns and len(res) == nb else np.full(nb, np.nan)
+    scale = max(1.0, float(np.abs(whi * norm).max()), float(np.abs(wlo * norm).max()))
+    bad = compare & ((obs < wlo * norm - 1e-9 * scale) | (obs > whi * norm + 1e-9 * scale) | ~np.isfinite(obs))
+    ctx.check("positions_updated_in_place", not bad.any(), key + "/positions_updated_in_place",
+              lambda: f"after the snapshot's positions were updated in place gA bin {int(np.argmax(bad))} is {obs[int(np.argmax(bad))]!r}, "
+                      f"reference [{(wlo * norm)[int(np.argmax(bad))]!r}, {(whi * norm)[int(np.argmax(bad))]!r}]", info)
 
 
 def case_sq(ctx, rng):
@@ -285,6 +323,23 @@ def case_sq(ctx, rng):
         if good:
             ctx.close("reduce_components", per["Sq"].values, tot, key + "/sum_of_components", rtol=1e-9, atol=2e-8 * d, scale=sc,
                       what="vector field vs sum over components", data=info, n=1)
+
+
+    # history: positions of the SAME snapshot object updated in place, same wave vectors, same condition
+    if s.positions.flags.writeable and rng.random() < 0.35:
+        newpos = cell["origin"] + rng.random((N, d)) * L
+        s.positions[...] = newpos
+        ok_u, out_u = ctx.call(key + "/positions_updated_in_place", conditional_sq, s, qarr, Acall, data=info)
+        if ok_u:
+            ph2 = np.exp(-1j * (newpos @ q.T))
+            if kind == "bool":
+                S2 = np.abs(ph2[A].sum(axis=0) / np.sqrt(A.sum())) ** 2
+            elif kind == "vector":
+                S2 = (np.abs((ph2[:, :, None] * A[:, None, :]).sum(axis=0) / np.sqrt(N)) ** 2).sum(axis=1)
+            else:
+                S2 = np.abs((ph2 * A[:, None]).sum(axis=0) / np.sqrt(N)) ** 2
+            ctx.close("positions_updated_in_place", out_u[0]["Sq"].values, S2, key + "/positions_updated_in_place", rtol=1e-9, atol=0.5e-8 + 1e-12,
+                      scale=max(1.0, float(S2.max())), what="per-vector S after the snapshot's positions were updated in place", data=info)
 
 
 def huge_sq(ctx, rng):
